@@ -135,7 +135,7 @@ FAMILIES_QUICK = ['int64', 'int64big', 'uint64', 'uint8', 'Int64', 'float64', 'f
                   'datetime64[us]', 'datetime64[s]', 'datetime-tz', 'dateobj']
 # the pandas 'string' extension dtype is not among the column types of C01's
 # quantifier (object-dtype strings and categoricals are); it is exercised by C05
-FAMILIES_ALL = [f for f in POOLS if f != 'string']
+FAMILIES_ALL = [f for f in POOLS if f not in ('string', 'category-int')]     # category-int: asked for explicitly by C01 only (recorded finding)
 
 
 def expected_ttype(family, values):
